@@ -3,7 +3,7 @@ SPEC = {
     "id": "C10",
     "level": "other",
     "sidecars": ["trie_dict"],
-    "functions": [F + m for m in ("get", "__getitem__", "__setitem__", "longest_matching_prefix_value", "__len__")],
+    "functions": [F + m for m in ("get", "__getitem__", "__setitem__", "longest_matching_prefix_value", "__len__", "items", "prefixes", "values", "__iter__")],
     "bounded": ["bcheck.c10"],
     "explanation": (
         "Deductive (all inputs, all histories, unbounded): TrieDict.get, __getitem__, __setitem__, __len__ and "
@@ -13,15 +13,22 @@ SPEC = {
         "`__setitem__` gives V' = V + {k}, M' = M[k:=v] over ALL keys and preserves Inv; `__len__` = |V| including the empty key; "
         "longest_matching_prefix_value = value of the longest stored prefix, None if none. Since every operation preserves Inv and "
         "has a functional postcondition over (V, M), the dictionary laws hold after any history by induction on the history. "
-        "Bounded (labelled, not counted as discharged): the stack traversals items / prefixes / values / __iter__ (not under a "
-        "deductive contract) and, as CPython cross-check of the proof's encoding, every method plus Inv itself evaluated on the real "
-        "objects over enumerated histories."),
+        "The stack traversals items / prefixes / values (/ __iter__ = items) are generators: their yielded sequence is the result. "
+        "Proved with ghost witnesses (g_done: popped paths; g_cov: index of the stack entry covering a not-yet-visited node; g_yat: "
+        "position at which a key was yielded): every yielded key is stored (items: with M(k) as value), every stored key is yielded at "
+        "position g_yat[k], and no key twice (stack entries are pairwise prefix-incomparable, nothing done lies below an entry); "
+        "values() yields M(k) under a bijection position <-> stored key. The inner `for token, child in node.children.items()` loop "
+        "has its own invariant over the dict iteration order. "
+        "Bounded (labelled, not counted as discharged): CPython cross-check of the proof's encoding: every method plus Inv itself "
+        "evaluated on the real objects over enumerated histories."),
     "assumptions": [
         "tokens are hashable and compare by ==; the prefix argument is a finite sequence that is not mutated during the call",
         "the NULL sentinel is never passed as a value (module-private object)",
         "dict objects stored in node.children are owned by their node (only dict literals / None are ever assigned: checked syntactically by the subset)",
         "Python semantics as encoded by pyvc (DESIGN.md 3.2): mathematical integers, dict get/set, attribute access on None raises",
-        "termination of the for-loops follows from finiteness of the iterated sequence; items/prefixes/values termination is not verified",
+        "termination of the for-loops follows from finiteness of the iterated sequence; termination of the while-loops of items/prefixes/values is not verified (partial correctness)",
+        "dict.items() / dict.values() enumerate every key of the dict exactly once, in one order shared by both (dict_iter axioms)",
+        "a generator function is identified with the finite sequence of the values it yields (no interleaving of caller mutations between yields)",
     ],
     "trusted_base": [
         "pyvc VC generator (/verif/pyvc) and z3 / cvc5",
